@@ -4,6 +4,7 @@ package c03
 import (
 	"context"
 	"fmt"
+	"math"
 	"sort"
 	"strings"
 	"sync"
@@ -394,6 +395,31 @@ func TestC03Returns(t *testing.T) {
 			used = append(used, id)
 		}
 		sort.Strings(used)
+		// registry and threshold calls made before the Sends, among them calls that fail and calls made with a
+		// context that is already done: whatever they did, every later Send must still return
+		for i, n := 0, rapid.IntRange(0, 3).Draw(t, "preCalls"); i < n; i++ {
+			var op model.Op
+			switch rapid.SampledFrom([]string{"thr", "thrsinks", "rpan-done", "rmnode-done", "rpan-unknown"}).Draw(t, "preCall") {
+			case "thr":
+				op = model.Op{K: "thr", ET: "A", V: rapid.SampledFrom([]int{0, 1, 3, math.MaxInt, 1 << 44, -1}).Draw(t, "thrV")}
+			case "thrsinks":
+				op = model.Op{K: "thrsinks", ET: "A", V: rapid.SampledFrom([]int{0, 1, 3, math.MaxInt, 1 << 44, -1}).Draw(t, "thrSV")}
+			case "rpan-done":
+				op = model.Op{K: "rpan", ET: "B", P: rapid.SampledFrom(bgen.PipeIDs).Draw(t, "rpanP"), CtxDone: true}
+			case "rmnode-done":
+				op = model.Op{K: "rmnode", N: "unused-node", CtxDone: true}
+			case "rpan-unknown":
+				op = model.Op{K: "rpan", ET: "Z", P: "nope", CtxDone: rapid.Bool().Draw(t, "unkDone")}
+			}
+			done := make(chan struct{})
+			go func() { defer close(done); x.Apply(op) }()
+			select {
+			case <-done:
+			case <-time.After(10 * time.Second):
+				t.Fatalf("VIOLATION C03: %s did not return within 10s\nhistory: %s", op, strings.Join(hist, "; "))
+			}
+			hist = append(hist, op.String())
+		}
 		ns := rapid.IntRange(1, 3).Draw(t, "sends")
 		for i := 0; i < ns; i++ {
 			s := bgen.GenSend(t, false, 0)
